@@ -62,6 +62,7 @@ func entries() []*entry {
 			func(in []byte) (bool, error) { return ztp.VerifC09ParseVendorOptions(in) != "", nil },
 			func(n int) []byte { return repeatTo(nil, []byte{2, 2, 0, 0}, n) }),
 		ztpEntry(),
+		exPPPoEEntry(), // third pass (c09_exhausted_test.go); here because of its long session-table-full job
 	)
 	return es
 }
